@@ -1,7 +1,7 @@
 #!/bin/bash
 # usage: tools/with_patch.sh <patch.diff> <ID> [<ID>...]   — apply a patch to /repo, run quick checks, always revert
 set -u
-patch="$1"; shift
+patch="$(readlink -f "$1")"; shift
 cd /repo || exit 2
 if ! git diff --quiet; then echo "/repo has uncommitted changes; refusing"; exit 2; fi
 git apply "$patch" || { echo "patch does not apply"; exit 2; }
